@@ -214,6 +214,215 @@ Proof.
   - intros (_ & -> & ->). rewrite Z.compare_refl, Pos.compare_cont_refl. reflexivity.
 Qed.
 
+(* ================= B (continued). the float link for every float ================= *)
+
+Fixpoint niter {A} (n : nat) (g : A -> A) (x : A) : A :=
+  match n with O => x | S n' => niter n' g (g x) end.
+
+Lemma niter_add {A} (g : A -> A) a : forall b x, niter (a + b) g x = niter b g (niter a g x).
+Proof. induction a as [|a IH]; intros b x; simpl; [reflexivity|apply IH]. Qed.
+
+Lemma iter_pos_niter {A} (g : A -> A) p : forall x,
+  SpecFloat.iter_pos g p x = niter (Pos.to_nat p) g x.
+Proof.
+  induction p as [p IH|p IH|]; intros x; cbn [SpecFloat.iter_pos].
+  - rewrite !IH, Pos2Nat.inj_xI. simpl. rewrite Nat.add_0_r, niter_add. reflexivity.
+  - rewrite !IH, Pos2Nat.inj_xO. simpl. rewrite Nat.add_0_r, niter_add. reflexivity.
+  - reflexivity.
+Qed.
+
+Lemma niter_shr_shift n : forall m,
+  niter n SpecFloat.shr_1 {| SpecFloat.shr_m := Z.pos (shift_nat n m); SpecFloat.shr_r := false; SpecFloat.shr_s := false |}
+  = {| SpecFloat.shr_m := Z.pos m; SpecFloat.shr_r := false; SpecFloat.shr_s := false |}.
+Proof.
+  induction n as [|n IH]; intros m; [reflexivity|].
+  cbn [niter shift_nat nat_rect SpecFloat.shr_1 orb]. apply IH.
+Qed.
+
+Lemma shr_fexp_shift k m :
+  SpecFloat.digits2_pos m = 53%positive ->
+  SpecFloat.shr_fexp 53 1024 (Z.pos (shift_pos k m)) 0 SpecFloat.loc_Exact =
+  ({| SpecFloat.shr_m := Z.pos m; SpecFloat.shr_r := false; SpecFloat.shr_s := false |}, Z.pos k).
+Proof.
+  intros Hd. unfold SpecFloat.shr_fexp. cbn [SpecFloat.Zdigits2 SpecFloat.shr_record_of_loc].
+  rewrite digits2_shift, Hd.
+  assert (F : SpecFloat.fexp 53 1024 (Z.pos (53 + k) + 0) - 0 = Z.pos k) by (unfold SpecFloat.fexp, SpecFloat.emin; lia).
+  rewrite F. cbn [SpecFloat.shr]. rewrite iter_pos_niter, shift_pos_nat, niter_shr_shift. reflexivity.
+Qed.
+
+(* an integer m * 2^k with a full 53-bit m is represented exactly *)
+Lemma binary_round_shift sx k m :
+  SpecFloat.digits2_pos m = 53%positive -> Z.pos k <= 971 ->
+  SpecFloat.binary_round 53 1024 sx (shift_pos k m) 0 = SpecFloat.S754_finite sx m (Z.pos k).
+Proof.
+  intros Hd Hk. unfold SpecFloat.binary_round, SpecFloat.shl_align.
+  rewrite digits2_shift, Hd.
+  assert (F : SpecFloat.fexp 53 1024 (Z.pos (53 + k) + 0) - 0 = Z.pos k) by (unfold SpecFloat.fexp, SpecFloat.emin; lia).
+  rewrite F.
+  rewrite <- (binary_round_aux_exact sx m (Z.pos k) Hd) by lia.
+  unfold SpecFloat.binary_round_aux. rewrite (shr_fexp_shift k m Hd).
+  assert (G : SpecFloat.shr_fexp 53 1024 (Z.pos m) (Z.pos k) SpecFloat.loc_Exact =
+              ({| SpecFloat.shr_m := Z.pos m; SpecFloat.shr_r := false; SpecFloat.shr_s := false |}, Z.pos k)).
+  { unfold SpecFloat.shr_fexp. cbn [SpecFloat.Zdigits2 SpecFloat.shr_record_of_loc]. rewrite Hd.
+    assert (F' : SpecFloat.fexp 53 1024 (53 + Z.pos k) - Z.pos k = 0) by (unfold SpecFloat.fexp, SpecFloat.emin; lia).
+    rewrite F'. reflexivity. }
+  rewrite G. reflexivity.
+Qed.
+
+Lemma valid_finite s m e :
+  SpecFloat.valid_binary 53 1024 (SpecFloat.S754_finite s m e) = true ->
+  SpecFloat.fexp 53 1024 (Z.pos (SpecFloat.digits2_pos m) + e) = e /\ e <= 971.
+Proof.
+  cbn [SpecFloat.valid_binary]. unfold SpecFloat.bounded, SpecFloat.canonical_mantissa.
+  intros H. apply andb_true_iff in H as [H1 H2].
+  apply Zeq_bool_eq in H1. apply Zle_bool_imp_le in H2. lia.
+Qed.
+
+Lemma finite_valid s m e :
+  SpecFloat.digits2_pos m = 53%positive -> -1074 <= e <= 971 ->
+  SpecFloat.valid_binary 53 1024 (SpecFloat.S754_finite s m e) = true.
+Proof.
+  intros Hd He. cbn [SpecFloat.valid_binary]. unfold SpecFloat.bounded, SpecFloat.canonical_mantissa.
+  rewrite Hd. apply andb_true_iff. split.
+  - apply Zeq_is_eq_bool. unfold SpecFloat.fexp, SpecFloat.emin. lia.
+  - apply Zle_imp_le_bool. lia.
+Qed.
+
+Definition signed (s : bool) (p : positive) : Z := if s then Z.neg p else Z.pos p.
+
+Lemma float_of_Z_signed s p :
+  float_of_Z (signed s p) = SF2Prim (SpecFloat.binary_round 53 1024 s p 0).
+Proof. destruct s; reflexivity. Qed.
+
+Lemma Prim2SF_float_of_Z_small s p :
+  Z.pos (SpecFloat.digits2_pos p) <= 53 ->
+  exists m e, Prim2SF (float_of_Z (signed s p)) = SpecFloat.S754_finite s m e /\
+              Z.pos m = Z.pos p * 2 ^ (- e) /\ e = Z.pos (SpecFloat.digits2_pos p) - 53.
+Proof.
+  intros Hd. destruct (binary_round_small s p Hd) as (m & e & R & Dm & He & Hm & Ee).
+  exists m, e. rewrite float_of_Z_signed, R.
+  rewrite Prim2SF_SF2Prim by (apply finite_valid; [exact Dm|lia]). auto.
+Qed.
+
+Lemma Prim2SF_float_of_Z_shift s k m :
+  SpecFloat.digits2_pos m = 53%positive -> Z.pos k <= 971 ->
+  Prim2SF (float_of_Z (signed s (shift_pos k m))) = SpecFloat.S754_finite s m (Z.pos k).
+Proof.
+  intros Hd Hk. rewrite float_of_Z_signed, binary_round_shift by assumption.
+  apply Prim2SF_SF2Prim. apply finite_valid; [exact Hd|lia].
+Qed.
+
+Lemma Prim2SF_min_int64 :
+  Prim2SF (float_of_Z min_int64) = SpecFloat.S754_finite true 4503599627370496 11.
+Proof. vm_compute. reflexivity. Qed.
+
+Lemma SFeqb_refl_finite s m e :
+  SpecFloat.SFeqb (SpecFloat.S754_finite s m e) (SpecFloat.S754_finite s m e) = true.
+Proof. apply SFeqb_finite. auto. Qed.
+
+Lemma signed_cases s p : signed s p = (if s then - Z.pos p else Z.pos p).
+Proof. destruct s; reflexivity. Qed.
+
+(* the round trip  f == float64(int(f))  accepts exactly the integers of int64 *)
+Lemma rt_all f : rt f.
+Proof.
+  unfold rt, go_index_int, float_int, go_int, float_to_Z, go_float64.
+  rewrite eqb_spec.
+  pose proof (Prim2SF_valid f) as V. unfold valid_binary, FloatOps.prec, FloatOps.emax in V.
+  destruct (Prim2SF f) as [s|s| |s m e] eqn:P.
+  - (* zero *) destruct s; vm_compute; reflexivity.
+  - (* infinity *) destruct s; vm_compute; reflexivity.
+  - (* nan *) vm_compute; reflexivity.
+  - (* finite *)
+    apply (valid_finite s m e) in V as [C E971].
+    pose proof (digits2_bounds m) as [BL BU].
+    set (D := Z.pos (SpecFloat.digits2_pos m)) in *.
+    assert (HD : D = 53 \/ (e = -1074 /\ D <= 53)).
+    { unfold SpecFloat.fexp, SpecFloat.emin in C. lia. }
+    cbn [sf_trunc].
+    destruct (0 <=? e) eqn:Ee.
+    + (* e >= 0 : an integer, |f| >= 2^52 *)
+      assert (D53 : D = 53) by lia. rewrite D53 in *.
+      assert (Dm : SpecFloat.digits2_pos m = 53%positive) by (unfold D in D53; lia).
+      set (T := Z.pos m * 2 ^ e).
+      assert (P2e : 1 <= 2 ^ e) by (apply (Z.pow_le_mono_r 2 0 e); lia).
+      assert (TL : 2 ^ 52 <= T) by (unfold T; nia).
+      destruct (in_int64 (if s then - T else T)) eqn:I64.
+      * (* fits: e <= 11 and the conversion back is exact *)
+        assert (Hrep : Prim2SF (float_of_Z (if s then - T else T)) = SpecFloat.S754_finite s m e).
+        { destruct e as [|k|k]; [| |lia].
+          - (* e = 0 *)
+            destruct (Prim2SF_float_of_Z_small s m) as (m' & e' & R & Hm & He); [fold D; lia|].
+            fold D in He. rewrite D53 in He. replace e' with 0 in * by lia.
+            change (- 0) with 0 in Hm. rewrite Z.pow_0_r, Z.mul_1_r in Hm.
+            assert (m' = m) by lia. subst m'.
+            unfold T. rewrite Z.pow_0_r, Z.mul_1_r. rewrite <- signed_cases. exact R.
+          - unfold T. rewrite <- shift_pos_Z, <- signed_cases.
+            apply Prim2SF_float_of_Z_shift; [exact Dm|lia]. }
+        rewrite Hrep, SFeqb_refl_finite. reflexivity.
+      * (* does not fit: int(f) is the indefinite value, and f is not -2^63 *)
+        rewrite Prim2SF_min_int64.
+        destruct (SpecFloat.SFeqb (SpecFloat.S754_finite s m e) (SpecFloat.S754_finite true 4503599627370496 11)) eqn:Q; [|reflexivity].
+        apply (SFeqb_finite s m e true 4503599627370496 11) in Q as (-> & -> & ->). vm_compute in I64. discriminate.
+    + (* e < 0 *)
+      assert (Eneg : e < 0) by lia.
+      set (d := 2 ^ (- e)).
+      assert (Dpos : 0 < d) by (apply Z.pow_pos_nonneg; lia).
+      set (q := Z.pos m / d). set (r := Z.pos m mod d).
+      assert (Hdiv : Z.pos m = d * q + r /\ 0 <= r < d).
+      { split; [apply Z.div_mod; lia|apply Z.mod_pos_bound; lia]. }
+      destruct Hdiv as [Hdiv Hr].
+      assert (Hq0 : 0 <= q) by (apply Z.div_pos; lia).
+      assert (P53 : 2 ^ D <= 2 ^ 53) by (apply Z.pow_le_mono_r; lia).
+      assert (Hqm : q <= Z.pos m) by nia.
+      assert (I64 : in_int64 (if s then - q else q) = true).
+      { unfold in_int64, min_int64. destruct s; lia. }
+      rewrite I64.
+      destruct (Z.eq_dec q 0) as [Q0|Q0].
+      * (* |f| < 1 : truncates to 0, f is not an integer *)
+        rewrite Q0. replace (if s then - 0 else 0) with 0 by (destruct s; reflexivity).
+        assert (r <> 0) by lia.
+        replace (r =? 0) with false by lia.
+        replace (Prim2SF (float_of_Z 0)) with (SpecFloat.S754_zero false) by (vm_compute; reflexivity).
+        destruct s; reflexivity.
+      * destruct q as [|p|p] eqn:Hq; [lia| |lia].
+        assert (Dp : Z.pos (SpecFloat.digits2_pos p) <= 53).
+        { pose proof (digits2_bounds p) as [L _].
+          assert (2 ^ (Z.pos (SpecFloat.digits2_pos p) - 1) < 2 ^ 53) by lia.
+          apply Z.pow_lt_mono_r_iff in H; lia. }
+        destruct (Prim2SF_float_of_Z_small s p Dp) as (m' & e' & R & Hm & He).
+        rewrite <- signed_cases, R.
+        destruct (r =? 0) eqn:R0.
+        -- (* an integer below 2^53 *)
+           assert (r = 0) by lia.
+           assert (D53 : D = 53).
+           { destruct HD as [H53|[Em Dle]]; [exact H53|].
+             assert (2 ^ 53 <= d) by (unfold d; apply Z.pow_le_mono_r; lia). nia. }
+           rewrite D53 in *.
+           (* digits p = 53 + e *)
+           assert (Epe : 0 <= 53 + e).
+           { destruct (Z.lt_ge_cases (53 + e) 0) as [N|N]; [|lia].
+             assert (2 ^ 53 <= d) by (unfold d; apply Z.pow_le_mono_r; lia). nia. }
+           assert (S1 : 2 ^ 53 = 2 ^ (53 + e) * d).
+           { unfold d. rewrite <- Z.pow_add_r by lia. f_equal. lia. }
+           assert (Dpe : Z.pos (SpecFloat.digits2_pos p) = 53 + e).
+           { apply digits2_unique. split.
+             - destruct (Z.eq_dec (53 + e) 0) as [Z0|NZ].
+               + replace (53 + e - 1) with (-1) by lia. rewrite Z.pow_neg_r by lia. lia.
+               + assert (S2 : 2 ^ 52 = 2 ^ (53 + e - 1) * d).
+                 { unfold d. rewrite <- Z.pow_add_r by lia. f_equal. lia. }
+                 change (53 - 1) with 52 in BL. nia.
+             - nia. }
+           assert (He' : e' = e) by lia. clear He. subst e'.
+           fold d in Hm. assert (m' = m) by nia. subst m'.
+           rewrite SFeqb_refl_finite. rewrite signed_cases. cbn iota beta. rewrite I64. reflexivity.
+        -- (* not an integer: the exact float of the truncation differs from f *)
+           assert (r <> 0) by lia.
+           destruct (SpecFloat.SFeqb (SpecFloat.S754_finite s m e) (SpecFloat.S754_finite s m' e')) eqn:Q; [|reflexivity].
+           apply (SFeqb_finite s m e s m' e') in Q as (_ & <- & <-).
+           fold d in Hm. exfalso. nia.
+Qed.
+
 (* ================= C. normalisation against the reference ================= *)
 
 (* reference written from the statement: the index must denote an integer
@@ -718,4 +927,59 @@ Proof.
   - intros f v h2 S a' L. apply h_set_index_frame in S as (_ & F & _).
     rewrite F by lia. apply Old. exact L.
   - intros a0 f v h2 L S. apply h_set_index_frame in S as (_ & F & _). apply F. lia.
+Qed.
+
+(* ---------- closing: the link holds for every float ---------- *)
+Lemma ort_all o : ort o.
+Proof. destruct o; simpl; [apply rt_all|exact I]. Qed.
+
+Lemma index_kind_huge {A} (s : list A) f i :
+  zlen s < 2 ^ 63 -> float_to_Z f = Some i -> ~ (- 2 ^ 63 <= i < 2 ^ 63) ->
+  arr_index s f = Panic EIndexValue.
+Proof.
+  intros Hl Hi R. apply (index_panic s f (rt_all f)). left. split; [reflexivity|].
+  apply float_int_none. right. eauto.
+Qed.
+
+Lemma str_index_spec (s : str) f r :
+  zlen s < 2 ^ 63 ->
+  (str_index s f = Ok r <->
+   exists i c, float_to_Z f = Some i /\ - zlen s <= i < zlen s /\
+               nth_error s (Z.to_nat (i mod zlen s)) = Some c /\ r = [c]).
+Proof.
+  intros Hl. rewrite (str_index_arr s f (rt_all f)). split.
+  - destruct (arr_index s f) as [c|e|] eqn:E; try discriminate.
+    intros H. inversion H; subst. apply (index_spec s f Hl (rt_all f)) in E as (i & Hi & R & N).
+    exists i, c. auto.
+  - intros (i & c & Hi & R & N & ->).
+    assert (E : arr_index s f = Ok c) by (apply (index_spec s f Hl (rt_all f)); eauto).
+    rewrite E. reflexivity.
+Qed.
+
+Lemma str_index_panic (s : str) f e :
+  str_index s f = Panic e <-> arr_index s f = Panic e.
+Proof.
+  rewrite (str_index_arr s f (rt_all f)). destruct (arr_index s f); split; intros H; try discriminate; inversion H; reflexivity.
+Qed.
+
+Lemma str_index_no_crash (s : str) f : zlen s < 2 ^ 63 -> str_index s f <> HostCrash.
+Proof.
+  intros Hl. rewrite (str_index_arr s f (rt_all f)).
+  pose proof (index_no_crash s f (rt_all f)). destruct (arr_index s f); congruence.
+Qed.
+
+(* the new array holds the very same element values — for inner arrays the same
+   addresses — as positions a .. b-1 of the original: inner arrays are shared *)
+Lemma h_slice_contents h a st en h' b s :
+  h_get h a = Some s -> zlen s < 2 ^ 63 ->
+  h_slice h a st en = Ok (h', b) ->
+  exists x y, bound_ok (zlen s) st 0 x /\ bound_ok (zlen s) en (zlen s) y /\ x <= y /\
+              h_get h' b = Some (sub s x y) /\ h_get h' a = Some s.
+Proof.
+  intros G Hl H. pose proof H as H0.
+  apply h_slice_fresh in H as (-> & _ & Old & s' & r & G' & E & B).
+  rewrite G in G'. inversion G'; subst s'.
+  apply (slice_spec copy_or_ref s st en Hl (ort_all st) (ort_all en)) in E as (x & y & Hx & Hy & L & ->).
+  rewrite map_copy_or_ref in B. exists x, y. repeat split; auto.
+  rewrite Old; [exact G|]. apply nth_error_Some. unfold h_get in G. congruence.
 Qed.
